@@ -640,6 +640,19 @@ fn run_workload(wl: &Workload, out: &mut Out, source: &str) {
     let recc: Vec<(Vec<String>, Option<(&'static str, String)>)> = r.images.iter().map(|img| recover_ids_checked(img, &by_data, wl.max_size)).collect();
     let compose_complaint: Option<(usize, &'static str, String)> = recc.iter().enumerate().find_map(|(t, (_, c))| c.as_ref().map(|(s, m)| (t, *s, m.clone())));
     let rec: Vec<Vec<String>> = recc.into_iter().map(|(v, _)| v).collect();
+    // ORDER (Props/C10Order.lean recovered_is_subsequence_of_written, model-free): what recovery returns from any
+    // crash image is a subsequence of the writes in the order they were sent — nothing twice, nothing reordered
+    let order_complaint: Option<(usize, String)> = {
+        let pos: HashMap<String, usize> = wl.writes().iter().enumerate().map(|(i, w)| (w.id.to_string(), i)).collect();
+        rec.iter().enumerate().find_map(|(t, ids)| {
+            let ps: Vec<Option<&usize>> = ids.iter().map(|i| pos.get(i)).collect();
+            if ps.iter().all(|p| p.is_some()) && !ps.windows(2).all(|w| w[0].unwrap() < w[1].unwrap()) {
+                Some((t, ids.join(" ")))
+            } else {
+                None
+            }
+        })
+    };
     let crash_s: Vec<String> = rec.iter().map(|v| v.join(" ")).collect();
     out.op(op_line(wl, &r.bases, &r.spawn_failed), format!("acks {} | trace {} | crash {}", acks_s.join(" "), r.trace.join(" "), crash_s.join(" ; ")));
 
@@ -743,6 +756,9 @@ fn run_workload(wl: &Workload, out: &mut Out, source: &str) {
     }
     check_synced_survives(wl, &r, &rec, out, &replay);
     out.count_n("compose-oracle:crash-images-checked", rec.len() as u64);
+    if let Some((t, ids)) = order_complaint {
+        out.violation("C09:compose:recovered-out-of-write-order", &format!("crash image at I/O index {}: recovery returned the writes {} — not a subsequence of the writes in the order they were sent (a duplicate or a reordering)", t, ids), json!({"workload": replay, "crash_index": t, "recovered": ids}));
+    }
     if let Some((t, sig, msg)) = compose_complaint {
         out.violation(sig, &format!("crash image at I/O index {}: {}", t, msg), json!({"workload": replay, "crash_index": t}));
     }
@@ -963,6 +979,47 @@ fn gen_workload(rng: &mut Rng, next_id: &mut u64) -> Workload {
     wl
 }
 
+
+/// LENGTH-WIDTH BOUNDARIES (a capacity threshold nobody configured): durable writes whose payload is just beyond
+/// 2^16 and just beyond 2^24 bytes, followed by small ones in the same file.  Judged directly on the real actor
+/// (the model is not handed 16 MiB op lines): every `Ok` ack is in recovery of every crash image from the ack
+/// on, and the composed oracle holds on every image.
+fn wide_payload_workloads(out: &mut Out, next_id: &mut u64) {
+    for len in [(1usize << 16) + 1, (1usize << 24) + 1] {
+        let big = mk_write(*next_id + 1, 100, len);
+        let s1 = mk_write(*next_id + 2, 200, 1);
+        let s2 = mk_write(*next_id + 3, 300, 1);
+        *next_id += 3;
+        let mut wl = Workload::single(1 << 30, 8, vec![], vec![vec![Msg::Durable(big)], vec![Msg::Durable(s1), Msg::Durable(s2)]]);
+        wl.max_wait_us = 200;
+        let r = run_real(&wl);
+        let by_data: HashMap<(Vec<u8>, u64), u64> = wl.writes().iter().map(|w| ((w.data.clone(), w.ts), w.id)).collect();
+        let recc: Vec<(Vec<String>, Option<(&'static str, String)>)> = r.images.iter().map(|img| recover_ids_checked(img, &by_data, wl.max_size)).collect();
+        out.count(&format!("wide-payload:{}", len));
+        if r.actor_panicked {
+            out.violation("C09:actor-panicked", "the WAL actor task panicked on a wide payload", json!({"payload_len": len}));
+        }
+        if let Some((t, sig, msg)) = recc.iter().enumerate().find_map(|(t, (_, c))| c.as_ref().map(|(s, m)| (t, *s, m.clone()))) {
+            out.violation(sig, &format!("wide payload ({} bytes), crash image at I/O index {}: {}", len, t, msg), json!({"payload_len": len, "crash_index": t}));
+        }
+        for (id, a, seen_at) in &r.acks {
+            if *a != "ok" {
+                out.violation("C09:wide-payload:not-acknowledged", &format!("a durable write on a fault-free store was answered {}", a), json!({"payload_len": len, "id": id}));
+                continue;
+            }
+            for t in *seen_at..recc.len() {
+                if !recc[t].0.contains(&id.to_string()) {
+                    out.violation(
+                        "C09:ack-ok-lost:wide-payload",
+                        &format!("write {} (batch with a {}-byte payload in the same file) was acknowledged Ok but is missing from WAL recovery after a crash at I/O index {}", id, len, t),
+                        json!({"payload_len": len, "lost_id": id, "crash_index": t, "acks": r.acks.iter().map(|(i, a, _)| format!("{}={}", i, a)).collect::<Vec<_>>(), "trace": r.trace, "recovered_at_crash": recc[t].0}),
+                    );
+                    break;
+                }
+            }
+        }
+    }
+}
 
 fn show_config(c: &WalConfig) -> String {
     format!(
@@ -1254,6 +1311,7 @@ pub fn run(a: &Args) {
             out.violation("C09:coverage:ack-timeout-not-driven", "no write_durable caller ran into its 5 s ack timeout on the corpus workloads with group_commit_max_wait > 5 s", json!({}));
         }
     }
+    wide_payload_workloads(&mut out, &mut next_id);
     for i in 0..(a.n / 25).max(12) {
         let pol = [Pol::Always, Pol::Always, Pol::EverySec, Pol::No][(i % 4) as usize];
         production_path(&mut out, &mut rng, pol, &mut next_id);
